@@ -96,6 +96,10 @@ func (n *Node) validatePath() error {
 	if strings.ContainsAny(n.name, invalidChars) {
 		return fmt.Errorf("invalid node name: %s", n.name)
 	}
+	// path.Join drops or resolves these before fs.ValidPath can see them.
+	if n.name == "" || n.name == "." || n.name == ".." {
+		return fmt.Errorf("invalid node name: %s", n.name)
+	}
 	if !fs.ValidPath(n.path()) {
 		return fmt.Errorf("invalid path: %s", n.path())
 	}
